@@ -164,6 +164,11 @@ HAND = [
     "1100 5 1000:f 100:f 1100:f 50:f | U3:l | O C D0 D1 K W",
     "1100 5 1000:f 100:f 1100:f 50:f | U0:l | O C K",
     "1100 5 2200:f | | O C s C s C x O C w",
+    # ENOMEM with nothing outstanding: retry timer pending at stop / close, then the clock passes it
+    "1100 5 2200:f | | O L0 C S A L- C W",
+    "1100 5 2200:f | | O L0 C X A L- O C W",
+    "1100 5 3300:f | | O L1 C A D0 A D1 A L- A W",
+    "1100 5 3300:f | | O L0 C A A L- A W",
     # an empty file strictly inside a piece (neither neighbour ends on a piece boundary)
     "2048 2 3000:f 0:f 3000:f | | O C W",
     "2048 2 100:f 0:f 0:f 5000:f | M3 | O C W",
@@ -219,6 +224,34 @@ def race_cases(r, stats, n):
     return out
 
 
+def pressure_cases(r, stats, n):
+    """memory pressure: the memory manager grants only k blocks (L<k>; L- lifts it).  A check that gets ENOMEM with nothing
+    outstanding waits on a 100 ms retry timer; stop / close inside that window, then the clock passes it (A)"""
+    out = []
+    for _ in range(n):
+        pl, files, total = layout(r, max_pieces=r.choice([4, 8, 12]))
+        np_ = (total + pl - 1) // pl
+        pert = perturb(r, pl, files, total, stats, calm=True)
+        k = r.choice([0, 0, 0, 1, 2, max(1, np_ // 2)])
+        order = list(range(np_))
+        r.shuffle(order)
+        ds = ["D%d" % i for i in order[:r.randint(0, min(np_, 3))]]
+        c = r.random()
+        if c < 0.30:
+            ops = ["O", "L%d" % k, "C"] + ds + [r.choice("SsXx"), "A"] + (["O"] if r.random() < 0.5 else []) + ["L-", "O", "C", "W"]
+        elif c < 0.50:
+            ops = ["O", "L%d" % k, "C", "A", "A"] + ds + ["L-", "A", "W"]
+        elif c < 0.65:
+            ops = ["O", "L%d" % k, "C"] + ds + ["z"]
+        elif c < 0.80:
+            ops = ["O", "C"] + ds + ["L0", "S", "C", r.choice("SX"), "A", "L-", "O", "C", "w"]
+        else:
+            ops = ["O", "L%d" % k, r.choice("CQ"), "K", "A", r.choice("Ss"), "A", "L-", "C", "W", "A"]
+        out.append(fmt(pl, r.randint(1, 9), files, pert, ops))
+        stats["memory_pressure"] += 1
+    return out
+
+
 def zero_tail_cases(r, stats, n):
     """files whose described content ends in zeros, truncated inside their last 4 KiB page (and just outside it):
     a mapping that reaches past EOF into the zero-filled rest of the page must not count as data on disk"""
@@ -249,7 +282,7 @@ def gen(seed, tier):
     stats = {k: 0 for k in ["file_missing", "file_nodir", "file_truncated", "file_extended", "file_unreadable",
                             "file_intact", "byte_flips", "bad_expected", "pat_full", "pat_full_free",
                             "pat_stop_after_k", "pat_close_after_k", "pat_quick", "pat_stop_twice", "pat_random",
-                            "exhaustive_small", "corpus", "hand", "stop_every_k", "zero_tail_truncation", "race_stop_close_remove", "giant_beyond_4GiB"]}
+                            "exhaustive_small", "corpus", "hand", "stop_every_k", "zero_tail_truncation", "race_stop_close_remove", "giant_beyond_4GiB", "memory_pressure"]}
     cases = []
     cdir = os.path.join(os.path.dirname(os.path.dirname(os.path.abspath(__file__))), "corpus", "C09")
     for f in sorted(glob.glob(os.path.join(cdir, "*.case"))):
@@ -283,6 +316,7 @@ def gen(seed, tier):
             cases.append("G %d %d" % (sd, v)); stats["giant_beyond_4GiB"] += 1
     cases += zero_tail_cases(r, stats, 60 if tier == "quick" else 600)
     cases += race_cases(r, stats, 400 if tier == "quick" else 4000)
+    cases += pressure_cases(r, stats, 300 if tier == "quick" else 3000)
     if tier != "quick":
         exhaustive_small(cases, stats)
     return cases, stats
@@ -341,6 +375,7 @@ def oracle(case, full):
     bad = []
     last_check = None
     prev = None
+    limited = False
     for o, sn in zip(ops, snaps):
         b = sn.get("b", "-")
         if b != "-":
@@ -362,7 +397,9 @@ def oracle(case, full):
             was_checking = prev is not None and prev.get("k") == "1"
             if sn.get("k") != "0" or (sn.get("d") != "0" and (was_checking or o[0] in "Xx")):
                 bad.append(("leak-after-stop", "after %s: checking=%s, completion timer pending=%s" % (o, sn.get("k"), sn.get("d"))))
-        if o[0] in "Ww" and last_check == "C" and (sn.get("k") != "0" or sn.get("hq") != "0"):
+        if o[0] == "L":
+            limited = o[1:] != "-"
+        if o[0] in "Ww" and last_check == "C" and not limited and sn.get("t") != "1" and (sn.get("k") != "0" or sn.get("hq") != "0"):
             bad.append(("no-termination", "check still running after every queued piece was answered"))
         if o[0] in "SsXx":
             last_check = None
